@@ -171,7 +171,7 @@ Section Cubic.
       apply N.odd_spec in Hodd. destruct Hodd as [m Hm].
       rewrite simpson38_cubic. cbn [bind].
       replace (n <? 3)%N with false by (symmetry; apply N.ltb_ge; lia).
-      cbv iota beta. cbn [nadd n0 RNum].
+      cbv iota beta. cbn [bind]. cbv iota beta. cbn [nadd n0 RNum].
       assert (Hm1 : (1 <= m)%N) by lia.
       assert (Hrem : (n - 3 = 2 * (m - 1))%N) by lia.
       assert (Hdiv : ((n - 3) / 2 = m - 1)%N)
@@ -181,7 +181,8 @@ Section Cubic.
         rewrite plus_IZR, mult_IZR. reflexivity. }
       destruct (1 <? n - 3)%N eqn:E3.
       + apply N.ltb_lt in E3.
-        rewrite simpson13_cubic by (rewrite Hdiv; lia).
+        assert (Hside : (1 <= (n - 3) / 2)%N) by (rewrite Hdiv; lia).
+        rewrite (simpson13_cubic h a (n - 3)%N Hside).
         cbn [bind nadd RNum]. f_equal.
         rewrite Hdiv.
         replace (a + RN (m - 1) * (2 * h)) with (b - h * 3); [ring|].
@@ -190,7 +191,7 @@ Section Cubic.
         apply N.ltb_ge in E3. f_equal.
         assert (m = 1%N) by lia. subst m.
         replace (b - h * 3) with a; [ring|].
-        rewrite Hh, HRn. cbn. ring.
+        rewrite Hh, HRn. change (RN (1 - 1)) with 0. ring.
   Qed.
 End Cubic.
 
@@ -247,7 +248,7 @@ Proof.
   { intro x. rewrite Hf. unfold cubic. f_equal. ring. }
   unfold definite_integral. cbn [N.eqb Pos.eqb].
   rewrite (trapezoid_cubic a0 a1 0 0 f Hf' a b 1) by lia.
-  f_equal. unfold cubic_der. field.
+  f_equal. change (RN 1) with 1. unfold cubic_der. field.
 Qed.
 
 Lemma c05_trapezoid_exact : forall (p : spoly R), (length (s_coefs p) <= 2)%nat ->
@@ -267,9 +268,11 @@ Proof.
 Qed.
 
 (* one segment is the trapezoid rule, whatever the integrand *)
-Lemma c05_one_segment_is_trapezoid : forall (f g : R -> R) (a b : R),
+Lemma c05_one_segment_is_trapezoid : forall (f : R -> R) (a b : R),
   definite_integral (fun x => Ok (f x)) a b 1 = Ok ((b - a) * (f a + f b) / 2).
 Proof.
-  intros f _ a b. unfold definite_integral, trapezoid, loopN. cbn [N.eqb Pos.eqb N.pred N.iter bind snd].
-  unfold ntwo, nofN. cbn [ndiv nmul nadd nsub nofZ Z.of_N RNum]. f_equal. field.
+  intros f a b. unfold definite_integral. cbn [N.eqb Pos.eqb].
+  unfold trapezoid. cbn [bind]. change (N.pred 1) with 0%N.
+  unfold loopN. cbn [N.iter bind snd]. unfold ntwo. rewrite nofN_R. change (RN 1) with 1.
+  cbn [ndiv nmul nadd nsub nofZ RNum]. f_equal. field.
 Qed.
